@@ -251,6 +251,35 @@ class Ctx:
             raise ToolError("trace validation produced no verdict for %s" % trace)
         return {"accepted": False, "info": info, "out": r["out"]}
 
+    def fixture_leg(self, fmt, tladir, module, cfg, maxtok=None, timeout=900):
+        """leg 2 on the repository's real-world fixtures: `cvh drive fixtures --fmt <fmt>` tokenises every
+        worksheet of /repo/tests/*.<fmt> with an independent tokeniser and logs the real reader's range
+        (positions exactly, values by coarse kind); the Trace spec of the format re-runs its reader
+        operators over the tokens.  Unknown constructs are skipped and listed, never guessed."""
+        trace = os.path.join(self.work, "fixtures_%s.ndjson" % fmt)
+        skipf = os.path.join(self.work, "fixtures_%s.skipped.json" % fmt)
+        args = ["drive", "fixtures", "--fmt", fmt, "--out", trace, "--skipped", skipf]
+        if maxtok:
+            args += ["--maxtok", maxtok]
+        self.cvh(args, timeout=timeout)
+        info = json.load(open(skipf))
+        self.extra["fixture_sheets_skipped"] = info["skipped"]
+        self.rules.append("fixture leg: every worksheet of the %s fixtures under /repo/tests, tokenised independently "
+                          "(harness/src/fixtures.rs), must be reproduced by the reader model (bounds and positions "
+                          "exactly, values by kind)" % fmt)
+        if info["sheets"] == 0:
+            self.extra["fixture_sheets_validated"] = 0
+            return
+        v = self.validate_trace(tladir, module, cfg, trace, timeout=timeout, name="fixtures_" + module)
+        if v["accepted"]:
+            self.traces += v["events"]
+            self.extra["fixture_sheets_validated"] = v["events"]
+            self.extra["fixture_tokens"] = info["tokens"]
+        else:
+            self.extra["fixture_sheets_validated"] = 0
+            self.fail("trace-rejected:fixtures:" + module,
+                      {"kind": "trace", "trace": trace, "info": v["info"], "tlc_output": v["out"]})
+
     # ------------------------------------------------------------- harness
     def cvh(self, args, timeout=3600, check=True):
         cmd = [CVH] + [str(a) for a in args]
